@@ -1,0 +1,31 @@
+//go:build verif
+
+package ast
+
+// Contracts for govc (contract-based deductive verification, see /verif/DESIGN.md).
+// This file is compiled only with -tags verif and contains no executable code.
+
+// ybase's NextWhile/DiscardWhile keep consuming while their predicate holds, and at the end of input
+// Peek keeps returning EOF: a predicate that is true at EOF never lets the lexer return (C09).
+// Every predicate the lexer passes to them is therefore required to be false at EOF.
+
+//@ func LexScanner.isDigit returns (ok)
+//@   pure
+//@   ensures ok == (48 <= r && r <= 57)
+//@   ensures r == ybase.EOF ==> !ok
+
+//@ func LexScanner.isSymbolRune returns (ok)
+//@   pure
+//@   ensures r == ybase.EOF ==> !ok
+//@   ensures ok ==> r != 47 && r != 91 && r != 95 && r != 59 && r != 61
+
+//@ func LexScanner.isMetadataRune returns (ok)
+//@   pure
+//@   ensures r == ybase.EOF ==> !ok
+//@   ensures ok ==> r != 123 && r != 125 && r != 61 && r != 44
+
+// the comment predicate
+//@ func LexScanner.ScanFunc$2 returns (ok)
+//@   pure
+//@   ensures r == ybase.EOF ==> !ok
+//@   ensures ok == (r != 10 && r != ybase.EOF)
